@@ -55,9 +55,11 @@ def radon_torch(images, theta=None, device=None):
 
     radon_images = torch.zeros((B, N_angles, N), dtype=images.dtype, device=device)
 
+    # grid_sample needs image and sampling grid of one floating dtype
+    grid_dtype = images.dtype if images.is_floating_point() else torch.float32
     grid_y, grid_x = torch.meshgrid(
-        torch.arange(N, dtype=torch.float32, device=device),
-        torch.arange(N, dtype=torch.float32, device=device),
+        torch.arange(N, dtype=grid_dtype, device=device),
+        torch.arange(N, dtype=grid_dtype, device=device),
         indexing="ij",
     )
     coords = torch.stack((grid_x - center, grid_y - center), dim=-1)  # (N, N, 2)
@@ -71,7 +73,7 @@ def radon_torch(images, theta=None, device=None):
                 [-torch.sin(angle_rad), torch.cos(angle_rad)],
             ],
             device=device,
-            dtype=torch.float32,
+            dtype=grid_dtype,
         )
 
         rot = rot.unsqueeze(0).expand(B, -1, -1)  # [B, 2, 2]
